@@ -554,13 +554,13 @@ C17Clauses(step) ==
 (* the returned string], doc: [source kind -> digest], read: [kind_how -> digest]] *)
 C16_same_text(step) ==
   \* pathover: the named file existed before and was longer than the new text
-  Cl("C16_same_text", TRUE, \A k \in {"text", "binary", "path", "pathover"} : step.res.text[k])
+  Cl("C16_same_text", TRUE, \A k \in {"text", "binary", "path", "pathover", "textfile"} : step.res.text[k])
 C16_same_doc(step) ==
   Cl("C16_same_doc", step.op.fmt \in Readable,
      \A k \in SrcKinds : step.res.doc[k] = step.res.src)
 C16_read(step) ==
   Cl("C16_read", step.op.fmt \in Readable,
-     /\ \A k \in {"text", "binary", "path"} : \A how \in {"explicit", "detect"} :
+     /\ \A k \in {"text", "binary", "path", "pathurl"} : \A how \in {"explicit", "detect"} :
            step.res.read[k \o "_" \o how] = step.res.src
      \* "without being told the format": neither by an argument nor by the file name
      /\ \A k \in {"pathwrong", "pathnoext"} : step.res.read[k \o "_detect"] = step.res.src)
